@@ -147,10 +147,12 @@ func snapshotSlice(c *Ctx, f *FuncInfo, index *FuncInfo) (types.Object, *CallSit
 			if sig.Params().At(i).Name() != "decryptHeader" {
 				continue
 			}
-			lit, ok := ast.Unparen(cs.Call.Args[i]).(*ast.FuncLit)
-			if !ok {
+			lf, bind := c.callbackFunc(f, cs.Call.Args[i])
+			if lf == nil || lf.Lit == nil {
 				return nil, cs
 			}
+			lit := lf.Lit
+			linfo := lf.Pkg.TypesInfo
 			var slice types.Object
 			ast.Inspect(lit.Body, func(n ast.Node) bool {
 				as, ok := n.(*ast.AssignStmt)
@@ -165,10 +167,14 @@ func snapshotSlice(c *Ctx, f *FuncInfo, index *FuncInfo) (types.Object, *CallSit
 					r = ast.Unparen(st.X)
 				}
 				if ix, ok := r.(*ast.IndexExpr); ok {
-					slice = objOfIdent(info, ix.X)
+					slice = objOfIdent(linfo, ix.X)
 				}
 				return true
 			})
+			// a factory parameter stands for the local the operation passed
+			if arg, ok := bind[slice]; ok {
+				slice = objOfIdent(info, arg)
+			}
 			return slice, cs
 		}
 	}
